@@ -6,7 +6,7 @@
 
     The same definitions are evaluated by [vm_compute] inside coqc (sample) and, extracted to
     OCaml, on the whole stream ([Extract/C02Extract.v]). *)
-From DL Require Import Lib.Bytes Model.Lexer Model.DenseGen Model.Precedence.
+From DL Require Import Lib.Bytes Model.Lexer Model.DenseGen Model.Precedence Model.C02Spec.
 Open Scope N_scope.
 
 Record tcase := {
@@ -59,8 +59,16 @@ Definition intent_ok (c : tcase) : bool :=
   | Some its => same_tokens (canon its) (c_dense c)
   end.
 
+(** (4) the push list satisfies the hypothesis of theorem [no_fusion_stream] under the current
+    table (so the theorem applies to this very list) *)
+Definition hyp_ok (c : tcase) : bool :=
+  match c_items c with
+  | None => true
+  | Some its => stream_ok T its
+  end.
+
 Definition check_case (c : tcase) : bool :=
-  model_ok c && lex_dense_ok c && lex_readable_ok c && intent_ok c.
+  model_ok c && lex_dense_ok c && lex_readable_ok c && intent_ok c && hyp_ok c.
 
 Fixpoint first_diff (a b : list token) : bytes :=
   match a, b with
@@ -82,6 +90,7 @@ Definition diag_bytes (c : tcase) : bytes :=
      of_string "MODEL model=" ++ match c_items c with Some its => tohex_b (emit T (c_span c) its) | None => [] end ++ [32]) ++
   (if lex_dense_ok c then [] else of_string "LEXDENSE " ++ lex_diff (c_ref c) (c_dense c) ++ [32]) ++
   (if lex_readable_ok c then [] else of_string "LEXREADABLE " ++ lex_diff (c_ref c) (c_readable c) ++ [32]) ++
+  (if hyp_ok c then [] else of_string "HYP ") ++
   (if intent_ok c then [] else of_string "INTENT " ++
      match c_items c with Some its => lex_diff (canon its) (c_dense c) | None => [] end ++ [32]).
 End WithTables.
